@@ -1,7 +1,7 @@
 from _common import COMMON_NOTE
 
 META = {'title': 'Audio arrives at exactly the configured rate and tracks the speaker bit',
- 'lean_modules': ['ZxVerif.Props.C19'],
+ 'lean_modules': ['ZxVerif.Props.C19', 'ZxVerif.Props.C19Sys'],
  'modelled_code': ['rustzx-core/src/zx/sound/mixer.rs (ZXMixer::process, new_frame, pop, gen_sample beeper part, '
                    'samples_per_frame)',
                    'rustzx-core/src/zx/sound/beeper.rs (ZXBeeper: ear/mic, sample factors 0.5 and 0.1)',
@@ -36,11 +36,14 @@ META = {'title': 'Audio arrives at exactly the configured rate and tracks the sp
                'lengths, a host that drains at every frame boundary receives exactly floor(rate/50) samples per frame; '
                'for all schedules and all drain behaviours the queue stays below two frames of samples; a level change '
                'at frame clock t shows from sample floor(spf*t/L) on, i.e. in the sample slot containing t; every '
-               'beeper sample is one of 0, 0.1, 0.5, 0.6 times volume/200. The model is tied to the Rust code on every '
+               'beeper sample is one of 0, 0.1, 0.5, 0.6 times volume/200. System level (C19Sys): the three statements '
+               'instantiated with the wait_internal calls and ULA writes the composed machine issues under every program '
+               '(the sound machine stays at the machine\'s frame clock, frame count and speaker bits; one batch of '
+               'floor(rate/50) samples per completed machine frame). The model is tied to the Rust code on every '
                'run by a correspondence check (7 rates x 3 drain policies x 2 machines on hook-driven schedules, real '
                'Z80 programs through emulate_frames, AY sounding for boundedness).',
  'level_note': COMMON_NOTE + ' PARTIAL: the f64 computation of the frame position (frame_pos, '
                'sample_count_for_frame_fraction) is not modelled bit-exactly - its result enters the model as an '
                'input whose assumed properties are checked at run time on every call, not proved; the AY part of a '
-               'sample and "finite" for the f32 samples are observed only. No bv_decide in C19. Finding, fixed: '
+               'sample and "finite" for the f32 samples are observed only. No bv_decide in C19 itself; C19Sys uses it for two bit-test lemmas and inherits the native axioms of C04Sys/C06. Finding, fixed: '
                'C19/bounded.ay-low-rate (root cause C18/signal.low-rate, fix commit 9244141 in /repo).'}
